@@ -19,8 +19,11 @@ SIG = {
     'oid_der': {'sort': 'bytes', 'uf': True, 'facts': ['len(result) >= 3']},
     'octets': 'int',
     # ---- section EMSA-PKCS1-v1_5 / RSAES-PKCS1-v1_5 (sig_rsa.py, pkcs1_enc.py)
-    'null_required': 'bool', 'digest_info': 'bytes', 'emsa_pkcs1_v15_fits': 'bool', 'emsa_pkcs1_v15': 'bytes',
-    'rsassa_pkcs1_v15_em': 'bytes', 'rsassa_pkcs1_v15_valid': 'bool',
+    'null_required': 'bool', 'emsa_pkcs1_v15_fits': 'bool', 'emsa_pkcs1_v15': 'bytes',
+    # size fact used where digest_info is opaque: leaving out the two octets 05 00 never makes the DER encoding longer (the
+    # number of definite-form length octets is monotone in the content length, X.690 8.1.3)
+    'digest_info': {'sort': 'bytes', 'facts': ['len(result) <= len(digest_info(oid, True, h))']},
+    'rsassa_pkcs1_v15_em': 'bytes', 'rsassa_pkcs1_v15_valid': 'bool', 'rsadp_crt_blinded': 'int',
     # PS of RSAES-PKCS1-v1_5 as drawn from the caller's byte source: the non-zero octets among the one-octet draws
     # number c0, c0+1, ..., c1-1 of the tape, in order (definition by recursion on c1; conservative)
     'nonzero_draws': {'sort': 'bytes', 'uf': True,
@@ -31,8 +34,7 @@ SIG = {
     # ---- section MGF1 / EMSA-PSS / RSAES-OAEP (sig_pss.py, enc_oaep.py)
     'MGF': {'sort': 'bytes', 'uf': True, 'facts': ['length >= 0 ==> len(result) == length']},
     'mgf1_T': {'sort': 'bytes', 'uf': True,
-               'facts': ['blocks <= 0 ==> result == b""',
-                         'blocks >= 1 ==> result == mgf1_T(alg, seed, blocks - 1) + Hash(alg, seed + i2osp(blocks - 1, 4))']},
+               'facts': ['result == ite(blocks <= 0, b"", mgf1_T(alg, seed, blocks - 1) + Hash(alg, seed + i2osp(blocks - 1, 4)))']},
     'mgf1': {'sort': 'bytes', 'facts': ['(0 <= maskLen and maskLen <= 4294967296 * hlen(alg)) ==> len(result) == maskLen']},
     'first_nonzero': {'sort': 'int', 'uf': True,
                       'facts': ['0 <= result and result <= len(s)', 's[:result] == rep(bytes(1), result)',
@@ -140,14 +142,22 @@ def rsassa_pkcs1_v15_valid(n, e, S, oid, h):
         return False
     em = i2osp(m, k)
     t1 = digest_info(oid, True, h)
-    if not emsa_pkcs1_v15_fits(t1, k):                  # step 3: 'RSA modulus too short'
-        return False
-    if em == emsa_pkcs1_v15(t1, k):                     # step 4
-        return True
-    if null_required(oid):
-        return False
     t2 = digest_info(oid, False, h)                     # B.1: the same AlgorithmIdentifier without the parameters field
-    return emsa_pkcs1_v15_fits(t2, k) and em == emsa_pkcs1_v15(t2, k)
+    return all((emsa_pkcs1_v15_fits(t1, k),             # step 3: else 'RSA modulus too short'
+                any((em == emsa_pkcs1_v15(t1, k),       # step 4
+                     all((not null_required(oid), emsa_pkcs1_v15_fits(t2, k), em == emsa_pkcs1_v15(t2, k)))))))
+
+
+def rsadp_crt_blinded(c, r, n, e, p, q, dp, dq, u):
+    """the library's blinded private operation before unblinding: c' = c r^e mod n;  m1 = c'^dP mod p,  m2 = c'^dQ mod q,
+    h = (m2 - m1) u mod q  (u = p^-1 mod q),  m' = m1 + p h   (RFC 8017 5.1.2 step 2.b with the roles of p and q exchanged).
+    Under the key invariants m' == c'^d mod n == (c^d mod n) r mod n -- that identity is NOT proved by the contracts that
+    mention this function (blinded CRT algebra: assumed, DESIGN C07 P1)"""
+    cp = (c * pow(r, e, n)) % n
+    m1 = pow(cp, dp, p)
+    m2 = pow(cp, dq, q)
+    h = ((m2 - m1) * u) % q
+    return h * p + m1
 
 
 def nonzero_draws(c0, c1):
